@@ -92,6 +92,21 @@ static void *watchdog(void *arg)
 			same = 0;
 		}
 		last = p;
+		/* memory backstop: unbounded optimism (e.g. one starved thread) can make a run allocate without limit: inconclusive, not a verdict */
+		{
+			FILE *f = fopen("/proc/self/statm", "r");
+			unsigned long sz = 0, rss = 0;
+			if(f) {
+				if(fscanf(f, "%lu %lu", &sz, &rss) != 2)
+					rss = 0;
+				fclose(f);
+			}
+			if(rss * 4096UL > 3UL * 1024 * 1024 * 1024) {
+				printf("STAT memory_backstop 1\nMEMORY-BACKSTOP rss=%lu MiB\n", rss * 4096UL >> 20);
+				fflush(stdout);
+				_exit(4);
+			}
+		}
 		/* bounded progress: forward executions and post-termination activity must stay within a step budget */
 		unsigned long long fw = vh_counter_total(VC_FWD);
 		if(fw > step_budget) {
